@@ -70,13 +70,60 @@ def eval_test(t, fl):
 class Result:
     def __init__(self):
         self.violations = []   # (message, [lines])
+        self.uncertain = []    # the same, found only along paths through tests on untracked state (not findings)
         self.states = 0
         self.transitions = 0
         self.cfg_nodes = 0
         self.letters = collections.Counter()
 
 
-def check(func, classify, spec, start, accepting, erase=(), buffers=None, max_states=200000, loop_letters=None):
+def _atoms(t):
+    if isinstance(t, ast.BoolOp):
+        for v in t.values:
+            yield from _atoms(v)
+    elif isinstance(t, ast.UnaryOp) and isinstance(t.op, ast.Not):
+        yield from _atoms(t.operand)
+    else:
+        yield t
+
+
+def _position_like(a, names):
+    """an atomic test that can encode "how many events so far" through untracked state: truthiness / None-ness / emptiness / a
+    count of a variable that changes inside a loop.  Arithmetic on sizes (`used + len(item) > limit`) is a test on content: both
+    outcomes are possible at any position, so exploring both is exact."""
+    def plain(e):
+        return isinstance(e, ast.Name) and e.id in names
+
+    def size(e):
+        return isinstance(e, ast.Call) and isinstance(e.func, ast.Name) and e.func.id == "len" and len(e.args) == 1 and plain(e.args[0])
+    if plain(a) or size(a):
+        return True
+    if isinstance(a, ast.Compare) and len(a.ops) == 1:
+        l, r = a.left, a.comparators[0]
+        for x, y in ((l, r), (r, l)):
+            if (plain(x) or size(x)) and isinstance(y, ast.Constant):
+                return True
+    return False
+
+
+def reference_tests(func):
+    """texts of the tests of the reference version of `func` (sa/alpha.py; empty when there is none): the tests the rules were
+    written against and on which the engine is known to be precise enough"""
+    from . import alpha
+    from .core import norm as _n
+    quals, p_ = [func.name], getattr(func, "_parent", None)
+    while p_ is not None:
+        if isinstance(p_, (ast.FunctionDef, ast.AsyncFunctionDef, ast.ClassDef)):
+            quals.append(p_.name)
+        p_ = getattr(p_, "_parent", None)
+    mod = getattr(func, "_mod", None)
+    fr = alpha.reference_function(mod.rel, ".".join(reversed(quals))) if mod is not None else None
+    if fr is None:
+        return None
+    return {_n(x.test) for x in ast.walk(fr) if isinstance(x, (ast.If, ast.While, ast.IfExp))}
+
+
+def check(func, classify, spec, start, accepting, erase=(), buffers=None, max_states=200000, loop_letters=None, known_tests=None):
     """classify(stmt) -> None | letter | tuple of letters, or ('@init', buffer, letters) / ('@append', buffer, letter) /
     ('@flush', buffer) for buffer statements.  `buffers` maps a buffer name to the AST If nodes whose test selects the
     flush (the branch containing the flush is taken exactly in COMMIT mode)."""
@@ -116,6 +163,40 @@ def check(func, classify, spec, start, accepting, erase=(), buffers=None, max_st
     seen = {init: None}
     work = collections.deque([init])
 
+    # tests that depend on state the engine does not track: a name that is re-bound, grown or shrunk inside a loop of the function
+    # (other than as a loop target) and is not one of the tracked flags.  A violation found along a path that takes such a test
+    # both ways is not a finding, it is a loss of precision.
+    tracked = set(init_flags) if False else set(flags) | set(idx_loops.values())
+    state_names = set()
+    for l_ in walk_local(func):
+        if isinstance(l_, (ast.For, ast.While)):
+            for x_ in ast.walk(l_):
+                if x_ is l_:
+                    continue
+                if isinstance(x_, ast.Assign):
+                    for t_ in x_.targets:
+                        state_names |= {y_.id for y_ in ast.walk(t_) if isinstance(y_, ast.Name)}
+                elif isinstance(x_, ast.AugAssign) and isinstance(x_.target, ast.Name):
+                    state_names.add(x_.target.id)
+                elif isinstance(x_, ast.Call) and isinstance(x_.func, ast.Attribute) and isinstance(x_.func.value, ast.Name) \
+                        and x_.func.attr in ("append", "extend", "insert", "pop", "add", "remove", "clear", "update", "discard"):
+                    state_names.add(x_.func.value.id)
+    state_names -= set(idx_loops.values())
+
+    def _uncertain(st):
+        """does the path to product state `st` take a test on untracked state whose outcome the engine did not know?"""
+        while st is not None:
+            n_ = g.nodes[st[0]]
+            if n_.kind in ("if", "while") and not (id(n_.ast) in flush_ifs):
+                t_ = n_.ast.test
+                if known_tests is not None and norm(t_) not in known_tests and eval_test(t_, dict(st[1])) == {True, False}:
+                    # (a test the reference function has as well is taken both ways as before: the rule was validated on it)
+                    cand_ = state_names - {k_ for k_, v_ in dict(st[1]).items() if v_ is not None}
+                    if any(_position_like(a_, cand_) for a_ in _atoms(t_)):
+                        return getattr(t_, "lineno", None) or True
+            st = seen[st]
+        return False
+
     def trace(st):
         out = []
         while st is not None:
@@ -135,7 +216,8 @@ def check(func, classify, spec, start, accepting, erase=(), buffers=None, max_st
             raise AnalysisError("events", getattr(func, "name", "?"), "product state limit exceeded")
         if n is g.exit:
             if q not in accepting:
-                res.violations.append((f"the function can end after an incomplete event sequence (specification state '{q}')", trace(cur)))
+                u_ = _uncertain(cur)
+                (res.uncertain if u_ else res.violations).append((f"the function can end after an incomplete event sequence (specification state '{q}')", trace(cur)))
             continue
         if n is g.raise_:
             continue
@@ -214,7 +296,8 @@ def check(func, classify, spec, start, accepting, erase=(), buffers=None, max_st
                 if L in erase:
                     continue
                 if (q2, L) not in spec:
-                    res.violations.append((f"event {L} at line {getattr(n.ast, 'lineno', '?')} is not allowed in specification state '{q2}'", trace(cur) + [getattr(n.ast, "lineno", 0)]))
+                    u_ = _uncertain(cur)
+                    (res.uncertain if u_ else res.violations).append((f"event {L} at line {getattr(n.ast, 'lineno', '?')} is not allowed in specification state '{q2}'", trace(cur) + [getattr(n.ast, "lineno", 0)]))
                     bad = True
                     break
                 q2 = spec[(q2, L)]
